@@ -264,3 +264,289 @@ Proof.
   - destruct (client_step_total c vnow inbox H Hop) as (c' & evs & sends & E & _). rewrite E. reflexivity.
   - destruct (client_flush_total c H) as (c' & sends & E & _). rewrite E. reflexivity.
 Qed.
+
+(* ====================================================================== the server *)
+From UF Require Import HeapCount.
+
+Definition ObjOk (st : sv_cstate) : Prop :=
+  match st with
+  | SvActive h _ _ _ => HcInv2 h
+  | SvPending ln _ _ _ _ => ln < pow32
+  | _ => True
+  end.
+
+Definition SvInv (s : server) : Prop := Forall (fun o => ObjOk (so_state o)) (sv_objs s).
+
+Lemma sv_obj_ok s id : SvInv s -> ObjOk (so_state (sv_obj_get s id)).
+Proof.
+  intros H. unfold sv_obj_get. destruct (nth_in_or_default (N.to_nat id) (sv_objs s) (mkSvObj 0 SvFin)) as [Hin | ->]; [|exact I].
+  unfold SvInv in H. rewrite Forall_forall in H. apply H. exact Hin.
+Qed.
+
+Lemma Forall_upd {A} (Pp : A -> Prop) : forall l i x, Forall Pp l -> Pp x -> Forall Pp (upd l i x).
+Proof.
+  induction l as [|h t IH]; intros [|i] x Hl Hx; cbn [upd]; try exact Hl; inversion Hl; subst; constructor; auto.
+Qed.
+
+Lemma sv_set_obj_inv s id st : SvInv s -> ObjOk st -> SvInv (sv_set_obj s id st).
+Proof. intros H Hs. unfold SvInv, sv_set_obj. cbn [sv_objs]. apply Forall_upd; [exact H|exact Hs]. Qed.
+
+Lemma SvInv_ext s s' : sv_objs s' = sv_objs s -> SvInv s -> SvInv s'.
+Proof. unfold SvInv. intros ->. auto. Qed.
+
+Definition nonces_ok (a : sv_acc) : Prop := Forall (fun n => n < pow32) (ac_nonces a).
+
+(* ----- frames ----- *)
+Lemma sv_handle_syn_inv s a addr v n mrr mps mra now :
+  SvInv s -> nonces_ok a -> SvInv (fst (sv_handle_syn s a addr v n mrr mps mra now)) /\ nonces_ok (snd (sv_handle_syn s a addr v n mrr mps mra now)).
+Proof.
+  intros H Hn. unfold sv_handle_syn.
+  destruct (sv_lookup s addr); [split; assumption|].
+  assert (R : forall e k, SvInv (fst (sv_refuse s a addr n e k)) /\ nonces_ok (snd (sv_refuse s a addr n e k))).
+  { intros e k. unfold sv_refuse. cbn [fst snd]. split; [exact H|]. destruct (svc_enable_errors _); exact Hn. }
+  destruct (negb _); [apply R|]. destruct (_ || _); [apply R|]. destruct (mra <? _); [apply R|]. destruct (_ <? mps); [apply R|].
+  cbn [fst snd]. split.
+  - unfold SvInv, sv_push_event. cbn [sv_objs]. apply Forall_app. split; [exact H|]. constructor; [|constructor].
+    cbn [so_state ObjOk]. unfold nonces_ok in Hn. destruct (ac_nonces a) as [|x t]; cbn [hd]; [unfold_pows; lia|]. inversion Hn; assumption.
+  - unfold nonces_ok in *. cbn [acc_send ac_nonces]. destruct (ac_nonces a) as [|x t]; cbn [tl]; [constructor|]. inversion Hn; assumption.
+Qed.
+
+Lemma sv_handle_ack_inv s a addr na now vnow :
+  SvInv s -> SvInv (fst (sv_handle_ack s a addr na now vnow)) /\ ac_nonces (snd (sv_handle_ack s a addr na now vnow)) = ac_nonces a.
+Proof.
+  intros H. unfold sv_handle_ack. destruct (sv_lookup s addr) as [id|]; [|split; [exact H|reflexivity]].
+  pose proof (sv_obj_ok s id H) as Ho. destruct (so_state (sv_obj_get s id)) eqn:E; cbn [ObjOk] in Ho; try (split; [exact H|reflexivity]).
+  - destruct (_ && _); [|split; [exact H|reflexivity]]. cbn [fst snd acc_event ac_nonces]. split; [|reflexivity].
+    unfold SvInv. cbn [sv_objs sv_set_obj]. apply Forall_upd; [exact H|]. cbn [so_state ObjOk].
+    apply hc_new_inv2. apply cfg_of_ok. exact Ho.
+  - cbn [fst snd]. split; [|reflexivity]. apply sv_set_obj_inv; [exact H|exact Ho].
+Qed.
+
+Lemma sv_handle_disconnect_inv s a addr now :
+  SvInv s -> SvInv (fst (sv_handle_disconnect s a addr now)) /\ ac_nonces (snd (sv_handle_disconnect s a addr now)) = ac_nonces a.
+Proof.
+  intros H. unfold sv_handle_disconnect. destruct (sv_lookup s addr) as [id|]; [|split; [exact H|reflexivity]].
+  destruct (so_state (sv_obj_get s id)) eqn:E; try (split; [exact H|reflexivity]).
+  - destruct (hc_receive h). cbn [fst snd]. split; [|reflexivity].
+    eapply SvInv_ext; [|apply (sv_set_obj_inv s id SvClosed H I)]. reflexivity.
+  - cbn [fst snd]. split; [|reflexivity]. eapply SvInv_ext; [|apply (sv_set_obj_inv s id SvClosed H I)]. reflexivity.
+Qed.
+
+Lemma sv_handle_disconnect_ack_inv s a addr :
+  SvInv s -> SvInv (fst (sv_handle_disconnect_ack s a addr)) /\ ac_nonces (snd (sv_handle_disconnect_ack s a addr)) = ac_nonces a.
+Proof.
+  intros H. unfold sv_handle_disconnect_ack. destruct (sv_lookup s addr) as [id|]; [|split; [exact H|reflexivity]].
+  destruct (so_state (sv_obj_get s id)) eqn:E; try (split; [exact H|reflexivity]).
+  cbn [fst snd]. split; [|reflexivity]. eapply SvInv_ext; [|apply (sv_set_obj_inv s id SvFin H I)]. reflexivity.
+Qed.
+
+Lemma sv_handle_hc_frame_total s a addr f now :
+  SvInv s -> frame_u32_ok f ->
+  exists r, sv_handle_hc_frame s a addr f now = Ok r /\ SvInv (fst r) /\ ac_nonces (snd r) = ac_nonces a.
+Proof.
+  intros H Hf. unfold sv_handle_hc_frame. destruct (sv_lookup s addr) as [id|]; [|eexists; split; [reflexivity|split; [exact H|reflexivity]]].
+  pose proof (sv_obj_ok s id H) as Ho.
+  destruct (so_state (sv_obj_get s id)) eqn:E; cbn [ObjOk] in Ho; try (eexists; split; [reflexivity|split; [exact H|reflexivity]]).
+  destruct (hc_handle_frame_total2 h f Ho Hf) as (h' & k & Eh & H'). rewrite Eh. cbn [bind fst].
+  eexists. split; [reflexivity|]. cbn [fst snd]. split; [|reflexivity]. apply sv_set_obj_inv; [exact H|exact H'].
+Qed.
+
+Lemma sv_handle_frame_total s a addr f now vnow :
+  SvInv s -> nonces_ok a -> frame_u32_ok f ->
+  exists r, sv_handle_frame s a addr f now vnow = Ok r /\ SvInv (fst r) /\ nonces_ok (snd r).
+Proof.
+  intros H Hn Hf.
+  destruct f as [v n x y z|na n mrr mps mra|na|na e| | |seq nonce dgs|nf np|fb pb acks]; cbn [sv_handle_frame];
+    try (eexists; split; [reflexivity|split; assumption]).
+  - eexists. split; [reflexivity|]. apply sv_handle_syn_inv; assumption.
+  - eexists. split; [reflexivity|]. destruct (sv_handle_ack_inv s a addr na now vnow H) as [A B]. split; [exact A|]. unfold nonces_ok. rewrite B. exact Hn.
+  - eexists. split; [reflexivity|]. destruct (sv_handle_disconnect_inv s a addr now H) as [A B]. split; [exact A|]. unfold nonces_ok. rewrite B. exact Hn.
+  - eexists. split; [reflexivity|]. destruct (sv_handle_disconnect_ack_inv s a addr H) as [A B]. split; [exact A|]. unfold nonces_ok. rewrite B. exact Hn.
+  - destruct (sv_handle_hc_frame_total s a addr _ now H Hf) as (r & E & A & B). exists r. split; [exact E|]. split; [exact A|]. unfold nonces_ok. rewrite B. exact Hn.
+  - destruct (sv_handle_hc_frame_total s a addr _ now H Hf) as (r & E & A & B). exists r. split; [exact E|]. split; [exact A|]. unfold nonces_ok. rewrite B. exact Hn.
+  - destruct (sv_handle_hc_frame_total s a addr _ now H Hf) as (r & E & A & B). exists r. split; [exact E|]. split; [exact A|]. unfold nonces_ok. rewrite B. exact Hn.
+Qed.
+
+Lemma sv_handle_frames_total now vnow : forall inbox s a,
+  Forall (fun p => Forall byte (snd p)) inbox -> SvInv s -> nonces_ok a ->
+  exists r, sv_handle_frames inbox s a now vnow = Ok r /\ SvInv (fst r).
+Proof.
+  induction inbox as [|[addr bs] rest IH]; intros s a Hb H Hn; cbn [sv_handle_frames]; [eexists; split; [reflexivity|exact H]|].
+  inversion Hb as [|? ? Hb1 Hb2]; subst. cbn [snd] in Hb1.
+  destruct (read_frame_total bs) as [r Er]. rewrite Er. cbn [bind]. destruct r as [f|]; [|apply IH; assumption].
+  destruct (sv_handle_frame_total s a addr f now vnow H Hn (read_frame_u32 bs f Hb1 Er)) as ([s1 a1] & E1 & H1 & Hn1).
+  rewrite E1. cbn [bind fst snd]. apply IH; assumption.
+Qed.
+
+(* ----- timers ----- *)
+Definition due (now : N) (e : rq_entry) : bool := rq_time e <=? now.
+
+Lemma sv_handle_event_inv s a ev now :
+  SvInv s ->
+  SvInv (fst (sv_handle_event s a ev now)) /\
+  cnt (due now) (sv_events (fst (sv_handle_event s a ev now))) = cnt (due now) (sv_events s).
+Proof.
+  intros H. unfold sv_handle_event.
+  assert (Push : forall s0 k c C, 0 < C -> cnt (due now) (sv_events (sv_push_event s0 (mkRq (rq_uid ev) k (now + C) c))) = cnt (due now) (sv_events s0)).
+  { intros s0 k c C HC. unfold sv_push_event. cbn [sv_events]. rewrite heap_push_cnt. unfold due. cbn [rq_time].
+    destruct (N.leb_spec (now + C) now); [lia|]. cbn. lia. }
+  destruct (so_state (sv_obj_get s (rq_uid ev))) eqn:E; try (split; [exact H|reflexivity]).
+  - destruct (rq_frag ev =? 0); [|split; [exact H|reflexivity]]. destruct (0 <? rq_count ev); cbn [fst].
+    + split; [exact H|]. apply Push. reflexivity.
+    + split; [|reflexivity]. eapply SvInv_ext; [|apply (sv_set_obj_inv s (rq_uid ev) SvFin H I)]. reflexivity.
+  - destruct (rq_frag ev =? 1); [|split; [exact H|reflexivity]]. destruct (0 <? rq_count ev); cbn [fst].
+    + split; [exact H|]. apply Push. reflexivity.
+    + split; [|reflexivity]. eapply SvInv_ext; [|apply (sv_set_obj_inv s (rq_uid ev) SvFin H I)]. reflexivity.
+  - destruct (rq_frag ev =? 2); cbn [fst]; [|split; [exact H|reflexivity]].
+    split; [|reflexivity]. eapply SvInv_ext; [|apply (sv_set_obj_inv s (rq_uid ev) SvFin H I)]. reflexivity.
+Qed.
+
+Lemma sv_pop_events_total now : forall fuel s a,
+  SvInv s -> (cnt (due now) (sv_events s) < fuel)%nat -> exists r, sv_pop_events fuel s a now = Ok r /\ SvInv (fst r).
+Proof.
+  induction fuel as [|fuel IH]; intros s a H Hf; [lia|]. cbn [sv_pop_events].
+  destruct (heap_peek (sv_events s)) as [ev|] eqn:Epk; [|eexists; split; [reflexivity|exact H]].
+  destruct (N.ltb_spec now (rq_time ev)) as [Hnd|Hd]; [eexists; split; [reflexivity|exact H]|].
+  destruct (heap_pop_some _ (heap_peek_nonempty _ _ Epk)) as (x & rest & Epop & _). rewrite Epop.
+  destruct (heap_pop_cnt (due now) _ _ _ Epop) as [Hc Hpk]. rewrite Epk in Hpk. inversion Hpk; subst x.
+  set (s1 := mkServer (sv_cfg s) (sv_objs s) (sv_clients s) (sv_active s) rest (sv_t0 s) (sv_seed s)).
+  assert (H1 : SvInv s1) by (eapply SvInv_ext; [|exact H]; reflexivity).
+  destruct (sv_handle_event_inv s1 a ev now H1) as [H2 C2].
+  destruct (sv_handle_event s1 a ev now) as [s2 a2]. cbn [fst] in H2, C2.
+  apply IH; [exact H2|]. rewrite C2. subst s1. cbn [sv_events].
+  assert (due now ev = true) by (unfold due; destruct (N.leb_spec (rq_time ev) now); [reflexivity|lia]).
+  rewrite H0 in Hc. cbn [b2] in Hc. lia.
+Qed.
+
+Lemma sv_active_timeouts_inv now : forall ids s a, SvInv s -> SvInv (fst (sv_active_timeouts ids s a now)).
+Proof.
+  induction ids as [|id rest IH]; intros s a H; cbn [sv_active_timeouts]; [exact H|].
+  destruct (so_state (sv_obj_get s id)) eqn:E; try (apply IH; exact H).
+  destruct (timeout_time <=? now); [|apply IH; exact H].
+  destruct (hc_receive h). apply IH. eapply SvInv_ext; [|apply (sv_set_obj_inv s id SvFin H I)]. reflexivity.
+Qed.
+
+(* ----- active connections ----- *)
+Lemma sv_flush_active_total : forall ids s a, SvInv s -> exists r, sv_flush_active ids s a = Ok r /\ SvInv (fst r) /\ ac_nonces (snd r) = ac_nonces a.
+Proof.
+  induction ids as [|id rest IH]; intros s a H; cbn [sv_flush_active]; [eexists; split; [reflexivity|split; [exact H|reflexivity]]|].
+  pose proof (sv_obj_ok s id H) as Ho.
+  destruct (so_state (sv_obj_get s id)) eqn:E; cbn [ObjOk] in Ho; try (apply IH; exact H).
+  destruct (hc_flush_total2 h Ho) as (h' & out & Ef & H'). rewrite Ef. cbn [bind fst snd].
+  match goal with |- context [sv_flush_active rest ?s1 ?a1] => destruct (IH s1 a1) as (r & Er & Hr & Nr) end.
+  { apply sv_set_obj_inv; [exact H|exact H']. }
+  exists r. split; [exact Er|]. split; [exact Hr|]. rewrite Nr.
+  clear. generalize a. induction out as [|fr t IHo]; intros a0; cbn [fold_left]; [reflexivity|]. rewrite IHo. reflexivity.
+Qed.
+
+Lemma sv_step_active_total now vnow : forall ids s a, SvInv s -> exists r, sv_step_active ids s a now vnow = Ok r /\ SvInv (fst r).
+Proof.
+  induction ids as [|id rest IH]; intros s a H; cbn [sv_step_active]; [eexists; split; [reflexivity|exact H]|].
+  pose proof (sv_obj_ok s id H) as Ho.
+  destruct (so_state (sv_obj_get s id)) eqn:E; cbn [ObjOk] in Ho; try (apply IH; exact H).
+  match goal with |- context [if ?x then _ else _] => destruct x end.
+  - destruct (hc_receive h). apply IH. eapply SvInv_ext; [|apply (sv_set_obj_inv s id SvClosing H I)]. reflexivity.
+  - destruct (hc_step_total h (vnow - t0) Ho) as (h1 & E1 & H1). rewrite E1. cbn [bind].
+    pose proof (hc_receive_inv2 h1 H1) as H2. destruct (hc_receive h1) as [h2 pkts]. cbn [fst] in H2.
+    apply IH. apply sv_set_obj_inv; [exact H|exact H2].
+Qed.
+
+(* ----- Server::step and the application calls ----- *)
+Theorem server_step_total s vnow inbox nonces :
+  SvInv s -> Forall (fun p => Forall byte (snd p)) inbox -> Forall (fun n => n < pow32) nonces ->
+  exists s' evs sends rest, server_step s vnow inbox nonces = Ok (s', evs, sends, rest) /\ SvInv s'.
+Proof.
+  intros H Hb Hn. unfold server_step.
+  destruct (sv_flush_active_total (sv_active s) s (mkAcc [] [] nonces) H) as ([s1 a1] & E1 & H1 & N1). rewrite E1. cbn [bind fst snd] in *.
+  destruct (sv_handle_frames_total (vnow - sv_t0 s) vnow inbox s1 a1 Hb H1 ltac:(unfold nonces_ok; rewrite N1; exact Hn)) as ([s2 a2] & E2 & H2).
+  rewrite E2. cbn [bind fst snd] in *.
+  destruct (sv_pop_events_total (vnow - sv_t0 s) (S (S (length (sv_events s2) + length inbox) * 16)) s2 a2 H2) as ([s3 a3] & E3 & H3).
+  { pose proof (cnt_le (due (vnow - sv_t0 s)) (sv_events s2)). lia. }
+  rewrite E3. cbn [bind fst snd] in *.
+  pose proof (sv_active_timeouts_inv (vnow - sv_t0 s) (sv_active s3) s3 a3 H3) as H4.
+  destruct (sv_active_timeouts (sv_active s3) s3 a3 (vnow - sv_t0 s)) as [s4 a4]. cbn [fst] in H4.
+  match goal with |- context [sv_step_active (sv_active ?s5) ?s5 a4 ?n ?v] =>
+    destruct (sv_step_active_total n v (sv_active s5) s5 a4) as ([s6 a6] & E6 & H6) end.
+  { eapply SvInv_ext; [|exact H4]. reflexivity. }
+  rewrite E6. cbn [bind fst snd]. eexists _, _, _, _. split; [reflexivity|exact H6].
+Qed.
+
+Theorem server_flush_total s : SvInv s -> exists s' sends, server_flush s = Ok (s', sends) /\ SvInv s'.
+Proof.
+  intros H. unfold server_flush. destruct (sv_flush_active_total (sv_active s) s (mkAcc [] [] []) H) as ([s1 a1] & E1 & H1 & _).
+  rewrite E1. cbn [bind fst snd]. eexists _, _. split; [reflexivity|exact H1].
+Qed.
+
+Lemma server_drop_inv s addr : SvInv s -> SvInv (server_drop s addr).
+Proof.
+  intros H. unfold server_drop. destruct (sv_lookup s addr) as [id|]; [|exact H].
+  eapply SvInv_ext; [|apply (sv_set_obj_inv s id SvFin H I)]. reflexivity.
+Qed.
+
+Lemma server_client_send_inv s addr d ch m : SvInv s -> SvInv (server_client_send s addr d ch m).
+Proof.
+  intros H. unfold server_client_send. destruct (sv_lookup s addr) as [id|]; [|exact H].
+  pose proof (sv_obj_ok s id H) as Ho. destruct (so_state (sv_obj_get s id)) eqn:E; cbn [ObjOk] in Ho; try exact H.
+  apply sv_set_obj_inv; [exact H|]. cbn [ObjOk]. apply hc_send_inv2. exact Ho.
+Qed.
+
+Lemma server_client_disconnect_inv s addr now : SvInv s -> SvInv (server_client_disconnect s addr now).
+Proof.
+  intros H. unfold server_client_disconnect. destruct (sv_lookup s addr) as [id|]; [|exact H].
+  pose proof (sv_obj_ok s id H) as Ho. destruct (so_state (sv_obj_get s id)) eqn:E; cbn [ObjOk] in Ho; try exact H.
+  apply sv_set_obj_inv; [exact H|exact Ho].
+Qed.
+
+Inductive sv_op :=
+| SvStep (vnow : N) (inbox : list (N * list N)) (nonces : list N)
+| SvFlush
+| SvDrop (addr : N)
+| SvSend (addr : N) (d : list N) (ch : N) (m : send_mode)
+| SvDisconnect (addr : N) (now : bool).
+
+Definition sv_op_ok (o : sv_op) : Prop :=
+  match o with
+  | SvStep _ inbox nonces => Forall (fun p => Forall byte (snd p)) inbox /\ Forall (fun n => n < pow32) nonces
+  | _ => True
+  end.
+
+Definition sv_apply (s : server) (o : sv_op) : server :=
+  match o with
+  | SvStep vnow inbox nonces => match server_step s vnow inbox nonces with Ok (s', _, _, _) => s' | _ => s end
+  | SvFlush => match server_flush s with Ok (s', _) => s' | _ => s end
+  | SvDrop addr => server_drop s addr
+  | SvSend addr d ch m => server_client_send s addr d ch m
+  | SvDisconnect addr now => server_client_disconnect s addr now
+  end.
+
+Definition sv_op_result (s : server) (o : sv_op) : res unit :=
+  match o with
+  | SvStep vnow inbox nonces => match server_step s vnow inbox nonces with Ok _ => Ok tt | Panic x => Panic x | Hang x => Hang x end
+  | SvFlush => match server_flush s with Ok _ => Ok tt | Panic x => Panic x | Hang x => Hang x end
+  | _ => Ok tt
+  end.
+
+Lemma sv_apply_inv s o : sv_op_ok o -> SvInv s -> SvInv (sv_apply s o).
+Proof.
+  intros Ho H. destruct o as [vnow inbox nonces| |addr|addr d ch m|addr now]; cbn [sv_apply].
+  - destruct Ho as [Hb Hn]. destruct (server_step_total s vnow inbox nonces H Hb Hn) as (s' & evs & sends & rest & E & H'). rewrite E. exact H'.
+  - destruct (server_flush_total s H) as (s' & sends & E & H'). rewrite E. exact H'.
+  - apply server_drop_inv. exact H.
+  - apply server_client_send_inv. exact H.
+  - apply server_client_disconnect_inv. exact H.
+Qed.
+
+(* No datagram from any address, clock value, nonce or application call makes a server panic or hang. *)
+Theorem server_never_panics_or_hangs cfg t0 seed ops o :
+  Forall sv_op_ok ops -> sv_op_ok o ->
+  sv_op_result (fold_left sv_apply ops (server_new cfg t0 seed)) o = Ok tt.
+Proof.
+  intros Ho Hop.
+  assert (G : forall s, SvInv s -> SvInv (fold_left sv_apply ops s)).
+  { induction Ho as [|o1 ops1 H1 H2 IH]; intros s H; cbn [fold_left]; [exact H|]. apply IH. apply sv_apply_inv; assumption. }
+  pose proof (G (server_new cfg t0 seed) ltac:(constructor)) as H.
+  set (s := fold_left sv_apply ops (server_new cfg t0 seed)) in *.
+  destruct o as [vnow inbox nonces| |addr|addr d ch m|addr now]; cbn [sv_op_result]; try reflexivity.
+  - destruct Hop as [Hb Hn]. destruct (server_step_total s vnow inbox nonces H Hb Hn) as (s' & evs & sends & rest & E & _). rewrite E. reflexivity.
+  - destruct (server_flush_total s H) as (s' & sends & E & _). rewrite E. reflexivity.
+Qed.
